@@ -105,6 +105,10 @@ pub struct GenParams {
     /// mode 1 writes slot[1 + pointer], mode 2 copies slot[1 + a] to slot[8 + b]; a re-executed
     /// writer *moves* its write (same write-set size, different location)
     pub pointer_contract: bool,
+    /// contract 0 is the hand-written "destroy-flip" victim: mode 0 sets a flag in slot 0,
+    /// mode 1 either writes two slots (flag 0) or self-destructs to the caller (flag != 0) - the
+    /// two behaviours have write sets of the same size - and mode 2 reads a slot
+    pub destroy_flip_contract: bool,
 }
 
 impl Default for GenParams {
@@ -131,6 +135,7 @@ impl Default for GenParams {
             stale_probe: false,
             reserve_shape: false,
             pointer_contract: false,
+            destroy_flip_contract: false,
         }
     }
 }
@@ -422,6 +427,45 @@ pub fn generate(p: &GenParams, seed: u64) -> Case {
                 Stmt::Const(6, 8),
                 Stmt::Arith(7, 7, 6, Add),
                 Stmt::SStore(7, 16, 3),
+                Stmt::Return(3),
+            ];
+        }
+        if p.destroy_flip_contract && i == 0 {
+            use progs::Arith::{Add, Eq};
+            prog.inits.clear();
+            prog.stmts = vec![
+                Stmt::Const(7, 0),
+                Stmt::SLoad(4, 7, 1), // r4 = flag = SLOAD(0)
+                Stmt::ModK(5, 0, 3),  // mode
+                // mode 0: SSTORE(0, r1 mod 2)
+                Stmt::Const(6, 0),
+                Stmt::Arith(6, 5, 6, Eq),
+                Stmt::IfZeroSkip(6, 2),
+                Stmt::Const(7, 0),
+                Stmt::SStoreSmall(7, 1, 1, 2),
+                // mode 1
+                Stmt::Const(6, 1),
+                Stmt::Arith(6, 5, 6, Eq),
+                Stmt::IfZeroSkip(6, 12),
+                //   flag != 0: selfdestruct to the caller
+                Stmt::IfZeroSkip(4, 2),
+                Stmt::Caller(7),
+                Stmt::SelfDestructRaw(7),
+                //   flag == 0: two slot writes
+                Stmt::ModK(7, 1, 3),
+                Stmt::Const(6, 1),
+                Stmt::Arith(7, 7, 6, Add),
+                Stmt::SStore(7, 16, 2),
+                Stmt::ModK(7, 2, 3),
+                Stmt::Const(6, 4),
+                Stmt::Arith(7, 7, 6, Add),
+                Stmt::SStore(7, 16, 3),
+                Stmt::Stop,
+                // mode 2: r3 = SLOAD(1 + r1 mod 3), also own balance
+                Stmt::ModK(7, 1, 3),
+                Stmt::Const(6, 1),
+                Stmt::Arith(7, 7, 6, Add),
+                Stmt::SLoad(3, 7, 16),
                 Stmt::Return(3),
             ];
         }
